@@ -208,12 +208,27 @@ Proof.
   exact (spec_inodes_type hash compress HT ht_search ht_insert BW bw_write bs bw0 ht0 files k).
 Qed.
 
+(* ... and the file size is the number of bytes the caller handed to append for that file (0 for a file
+   number that does not exist), whatever the chunking *)
+Theorem inode_file_size_is_input_length :
+  forall (pool : fifo_pool) (p0 : fp_state pool) bs q ht0 bw0 files s k,
+  fp_alpha pool p0 = [] -> 0 < bs -> Forall file_ok files ->
+  run_on pool p0 bs q ht0 bw0 files = Ok s ->
+  i_size (s_ino _ _ _ s k) = file_bytes files k.
+Proof.
+  intros pool p0 bs q ht0 bw0 files s k Hp Hbs Hf Hrun.
+  destruct (bp_inodes_refine_spec pool p0 bs q ht0 bw0 files Hp Hbs Hf) as (s1 & A1 & A2 & _).
+  rewrite Hrun in A1. inversion A1; subst s1. rewrite A2.
+  exact (spec_inodes_size hash compress HT ht_search ht_insert BW bw_write bs bw0 ht0 files k Hbs Hf).
+Qed.
+
 End Statements.
 Print Assumptions bp_refines_spec.
 Print Assumptions bp_inodes_refine_spec.
 Print Assumptions bp_inodes_schedule_backlog_irrelevant.
 Print Assumptions inodes_are_function_of_input.
 Print Assumptions inode_type_is_minimal.
+Print Assumptions inode_file_size_is_input_length.
 Print Assumptions bp_backlog_irrelevant.
 Print Assumptions bp_schedule_irrelevant.
 Print Assumptions io_order.
